@@ -15,6 +15,10 @@ may both read the local copy before either writes. It is kept as `NeverRegresses
 namespace SafeNet.Props.C07
 open SafeNet.Validate SafeNet.Gen.Validate
 
+/-- `BTreeSet<Transaction>` is a set of whole transactions: `Transaction`'s ordering and equality are the derived
+ones (read off the source); the union theorems below depend on it. -/
+@[simp] theorem tx_set_is_by_value : txOrdDerived = true := by decide
+
 /-! ## `written` and the per-kind observations -/
 
 theorem written_pad {d : Delivery} {a : Ans} {b : Bool} {n : Nat} {v : Bool}
@@ -40,7 +44,9 @@ theorem written_txs {d : Delivery} {a : Ans} {b : Bool} {l' : List Nat}
   | bad => simp [hc] at h
   | chunk id => simp [hc] at h
   | pad o n' v' => simp [hc] at h
-  | txs l => simp [hc] at h; exact h.symm
+  | txs l =>
+    have e : txOrdDerived = true := by decide
+    simp [hc, e] at h; exact h.symm
   | reg id base ops =>
     simp only [hc] at h
     split at h
@@ -663,6 +669,7 @@ end SafeNet.Props.C07
 #print axioms SafeNet.Props.C07.scratchpad_counter_strictly_increases
 #print axioms SafeNet.Props.C07.stored_scratchpad_valid
 #print axioms SafeNet.Props.C07.stored_scratchpad_valid_and_max
+#print axioms SafeNet.Props.C07.tx_set_is_by_value
 #print axioms SafeNet.Props.C07.transactions_grow
 #print axioms SafeNet.Props.C07.transactions_union_serial
 #print axioms SafeNet.Props.C07.transactions_order_independent
